@@ -370,8 +370,15 @@ Proof.
   intros H. induction l as [|x xs IH]; cbn [mapM]; [apply total_ret|].
   apply total_bind; [apply H|]. intros y. apply total_bind; [apply IH|]. intros ys. apply total_ret.
 Qed.
+Lemma total_obs_list vs : total (obs_list vs).
+Proof. intros s; discriminate. Qed.
+Lemma total_lift_sres r : total (lift_sres r).
+Proof. destruct r as [e|[x|z|b| |l|l]]; cbn [lift_sres]; try apply total_ret; try apply total_fail; apply total_alloc_list. Qed.
 Lemma total_str_of v : total (str_of v).
-Proof. destruct v; cbn [str_of]; try apply total_ret; try apply total_fail. destruct b; apply total_ret. Qed.
+Proof.
+  unfold str_of. apply total_bind; [apply total_obs_list|]. intros os.
+  destruct (str_obs (hd ONone os)); [apply total_ret | apply total_fail].
+Qed.
 
 Ltac total_step :=
   match goal with
@@ -389,6 +396,8 @@ Ltac total_step :=
   | |- total (check_hashable _) => apply total_check_hashable
   | |- total (iter_elems _) => apply total_iter_elems
   | |- total (str_of _) => apply total_str_of
+  | |- total (obs_list _) => apply total_obs_list
+  | |- total (lift_sres _) => apply total_lift_sres
   | |- total (mapM _ _) => apply total_mapM; intro
   | |- total (let _ := _ in _) => cbv zeta
   | |- total (match ?x with _ => _ end) => destruct x
